@@ -316,8 +316,8 @@ class World:
         else:
             self.gw = api.TCPGateway("10.0.0.1", reconnect_timeout=reconnect_timeout, protocol_version=version, **pkw)
         self._arm_save_failure(save_fails)
-        self.gw.on_conn_made = self._on_made
-        self.gw.on_conn_lost = self._on_lost
+        self.cb_epoch = 0
+        self.swap_callbacks(first=True)
 
     @property
     def t(self):
@@ -431,6 +431,23 @@ class World:
     def start(self):
         self.gw.start()
         self.settle()
+
+    def swap_callbacks(self, first=False):
+        """The application assigns new on_conn_made / on_conn_lost callbacks (documented attributes)."""
+        if not first:
+            self.cb_epoch += 1
+        epoch = self.cb_epoch
+
+        def made(gw):
+            self._on_made(gw)
+            self.made[-1].update(epoch=epoch, current=self.cb_epoch)
+
+        def lost(gw, exc):
+            self._on_lost(gw, exc)
+            self.lost[-1].update(epoch=epoch, current=self.cb_epoch)
+
+        self.gw.on_conn_made = made
+        self.gw.on_conn_lost = lost
 
     def _arm_save_failure(self, save_fails):
         self.stop_raised = None
